@@ -117,6 +117,11 @@ impl RwsToString for usize {
     #[verifier::external_body]
     fn rws_to_string(&self) -> String { self.to_string() }
 }
+impl RwsToString for u128 {
+    open spec fn ts(&self) -> Seq<char> { dec(*self as nat) }
+    #[verifier::external_body]
+    fn rws_to_string(&self) -> String { self.to_string() }
+}
 impl RwsToString for u8 {
     open spec fn ts(&self) -> Seq<char> { dec(*self as nat) }
     #[verifier::external_body]
@@ -214,14 +219,33 @@ impl<const N: usize> RwsJoin for [String; N] {
 }
 
 // ---------- as_ref ----------
-pub trait RwsAsRef<T: ?Sized> {
-    fn rws_as_ref(&self) -> &T;
+pub trait RwsAsRef<'a, O> {
+    spec fn as_ref_spec(&'a self) -> O;
+    fn rws_as_ref(&'a self) -> (r: O)
+        ensures r == self.as_ref_spec();
 }
-impl RwsAsRef<[u8]> for Vec<u8> {
+pub uninterp spec fn slice_of(v: &Vec<u8>) -> &[u8];
+#[verifier::external_body]
+pub proof fn axiom_slice_of(v: &Vec<u8>)
+    ensures slice_of(v)@ == v@,
+{
+}
+impl<'a> RwsAsRef<'a, &'a [u8]> for Vec<u8> {
+    open spec fn as_ref_spec(&'a self) -> &'a [u8] { slice_of(self) }
     #[verifier::external_body]
-    fn rws_as_ref(&self) -> (r: &[u8])
+    fn rws_as_ref(&'a self) -> (r: &'a [u8])
         ensures r@ == self@,
     { self.as_ref() }
+}
+impl<'a, T, E> RwsAsRef<'a, Result<&'a T, &'a E>> for Result<T, E> {
+    open spec fn as_ref_spec(&'a self) -> Result<&'a T, &'a E> { match self { Ok(x) => Ok(x), Err(e) => Err(e) } }
+    #[verifier::external_body]
+    fn rws_as_ref(&'a self) -> (r: Result<&'a T, &'a E>) { self.as_ref() }
+}
+impl<'a, T> RwsAsRef<'a, Option<&'a T>> for Option<T> {
+    open spec fn as_ref_spec(&'a self) -> Option<&'a T> { match self { Some(x) => Some(x), None => None } }
+    #[verifier::external_body]
+    fn rws_as_ref(&'a self) -> (r: Option<&'a T>) { self.as_ref() }
 }
 
 // ---------- chars ----------
@@ -1000,4 +1024,27 @@ impl<'a, 'b, 'c> RwsContains<&'a &'b str> for Vec<&'c str> {
     open spec fn contains_spec(&self, a: &'a &'b str) -> bool { member(sviews(self@), (*a)@) }
     #[verifier::external_body]
     fn rws_contains(&self, a: &'a &'b str) -> bool { self.iter().any(|x| **x == **a) }
+}
+
+pub broadcast proof fn lemma_bjoin2_sep(ss: Seq<Seq<char>>, sep: Seq<char>)
+    requires ss.len() == 2,
+    ensures #[trigger] join_spec(ss, sep) == ss[0] + sep + ss[1],
+{
+    reveal_with_fuel(join_spec, 3);
+    let d = ss.drop_last();
+    assert(d.len() == 1 && d[0] == ss[0]);
+}
+
+// R-CLONE: structural clone
+pub trait RwsClone: Sized {
+    fn rws_clone(&self) -> (r: Self)
+        ensures r == *self;
+}
+impl RwsClone for String {
+    #[verifier::external_body]
+    fn rws_clone(&self) -> String { self.clone() }
+}
+impl RwsClone for Vec<u8> {
+    #[verifier::external_body]
+    fn rws_clone(&self) -> Vec<u8> { self.clone() }
 }
